@@ -313,8 +313,9 @@ func drawC03(t *rapid.T) C03Case {
 		MaxActions: rapid.SampledFrom([]int{8, 15, 30, 45}).Draw(t, "maxActions"),
 		Accruals:   rapid.IntRange(0, 3).Draw(t, "accruals") == 0,
 		Assertions: rapid.Bool().Draw(t, "assertions"), Closes: true,
-		Prices: rapid.SampledFrom([]int{1, 1, 1, 2}).Draw(t, "prices"),
-		MaxDec: rapid.SampledFrom([]int{2, 4, 8}).Draw(t, "maxDec"),
+		Prices:    rapid.SampledFrom([]int{1, 1, 1, 2}).Draw(t, "prices"),
+		MaxDec:    rapid.SampledFrom([]int{2, 4, 8}).Draw(t, "maxDec"),
+		WideDates: true,
 	}
 	j := gen.GenJournal(t, cfg)
 	if rapid.IntRange(0, 3).Draw(t, "shuffle") == 0 {
